@@ -203,3 +203,166 @@ Theorem C10_ic3_block_sem :
     frames_ok St init bad trans (strengthen St Fr k g) N.
 Proof. exact strengthen_frames_ok. Qed.
 Print Assumptions C10_ic3_block_sem.
+
+(** ** the CONCRETE model of pdr.rs (Model/PdrImpl.v): cubes, FrameId, frames with bookkeeping
+    lists and permanently asserted clauses, get_bad_cube, rel_ind with unsat-core generalisation and
+    fix_gen_cube, block_cube with its obligation queue and the pushing loop, add_frame,
+    propagate_blocked_cubes, the main loop and the BMC fallback — over an abstract solver oracle
+    [solve : nat -> query -> answer].
+
+    [oracle_ok]: (1) a bit-level cube of a state describes exactly that state; (2) every answer is
+    TRUTHFUL: a sat answer carries a model of the query, an unsat answer is right for the query
+    restricted to the selectable literals of its core (whatever the core is); (3) a system without
+    bad-state expressions has no bad state.  Semantics ([bad0], [step0], [trans], [bad]: see
+    Proofs/PdrImplProofs.v): [safe] = no execution of any length reaches a bad state, [unsafe_at d] =
+    some execution of exactly d steps does.  The proofs establish, for every state change of the
+    model, the side conditions of the abstract logic (blocked cube excludes the successors of the
+    initial states; relative induction; "no bad state in the frontier" before a new frame).
+
+    Tie to the real pdr.rs: the cfg(patronus_verif) trace hook records every query with the real
+    solver's answer, every blocked cube and every new frame; ./check replays the extracted model with
+    these answers as the oracle and compares the runs event by event (correspondence corr_C10). *)
+From Patronus Require Import PdrImpl PdrImplProofs.
+
+(** Success of the concrete model is sound — for every oracle satisfying the hypothesis, every
+    fuel, generalisation on or off. *)
+Theorem C10_pdr_model_success_sound :
+  forall (lit : Type) (lit_eqb : lit -> lit -> bool) (St : Type) (cube_of_state : St -> list lit) (W : Type)
+         (solve : nat -> query lit -> answer lit St) (gen_on has_bads : bool) (bmc_result : bmc_answer W)
+         (lit_holds : lit -> St -> bool) (bad0 : St -> bool) (step0 trans : St -> St -> bool) (bad : St -> bool)
+         (fuel bf : nat) (st' : pst lit St),
+    oracle_ok lit lit_eqb St cube_of_state solve has_bads lit_holds bad0 step0 trans bad ->
+    pdr lit lit_eqb St cube_of_state W solve gen_on has_bads bmc_result fuel bf = Ok (VSuccess W, st') ->
+    safe St bad0 step0 trans bad.
+Proof. exact pdr_model_success_sound. Qed.
+Print Assumptions C10_pdr_model_success_sound.
+
+(** Fail: the witness is the one the BMC fallback produced, and a bad state really is reachable in at
+    most MAX_FRAMES steps (the obligation chain that reached the initial frame is a real execution),
+    so an exact bounded model checker (C02) cannot come back empty-handed. *)
+Theorem C10_pdr_model_fail_real :
+  forall (lit : Type) (lit_eqb : lit -> lit -> bool) (St : Type) (cube_of_state : St -> list lit) (W : Type)
+         (solve : nat -> query lit -> answer lit St) (gen_on has_bads : bool) (bmc_result : bmc_answer W)
+         (lit_holds : lit -> St -> bool) (bad0 : St -> bool) (step0 trans : St -> St -> bool) (bad : St -> bool)
+         (fuel bf : nat) (w : W) (st' : pst lit St),
+    oracle_ok lit lit_eqb St cube_of_state solve has_bads lit_holds bad0 step0 trans bad ->
+    pdr lit lit_eqb St cube_of_state W solve gen_on has_bads bmc_result fuel bf = Ok (VFail W w, st') ->
+    bmc_result = BmcFail W w /\ (exists d, d <= MAX_FRAMES /\ unsafe_at St bad0 step0 trans bad d).
+Proof. exact pdr_model_fail_real. Qed.
+Print Assumptions C10_pdr_model_fail_real.
+
+(** Definite: with a truthful solver that never says "unknown" the model returns neither an error
+    nor a panic (every Err / panic! / assert! / index path of pdr.rs is unreachable: "original cube is
+    reachable from init", FrameId decrement/increment, frame indexing, the assert in fix_gen_cube);
+    the fuel of fix_gen_cube's loop and of the pushing loop is computed and suffices.  TERMINATION of
+    block_cube's loop and of the main loop is NOT proved: the statement is conditional on the fuel
+    ([Fuel] = the model's own fuel ran out). *)
+Theorem C10_pdr_model_definite :
+  forall (lit : Type) (lit_eqb : lit -> lit -> bool) (St : Type) (cube_of_state : St -> list lit) (W : Type)
+         (solve : nat -> query lit -> answer lit St) (gen_on has_bads : bool) (bmc_result : bmc_answer W)
+         (lit_holds : lit -> St -> bool) (bad0 : St -> bool) (step0 trans : St -> St -> bool) (bad : St -> bool)
+         (fuel bf : nat),
+    oracle_ok lit lit_eqb St cube_of_state solve has_bads lit_holds bad0 step0 trans bad ->
+    (forall n q, solve n q <> AUnknown lit St) ->
+    match pdr lit lit_eqb St cube_of_state W solve gen_on has_bads bmc_result fuel bf with
+    | Err _ | Panic _ => False
+    | Ok _ | Fuel => True
+    end.
+Proof. exact pdr_model_no_error. Qed.
+Print Assumptions C10_pdr_model_definite.
+
+(** ... and [Unknown] only when the frame limit is exceeded or the BMC fallback gives up although a
+    counterexample within its bound exists. *)
+Theorem C10_pdr_model_unknown_only :
+  forall (lit : Type) (lit_eqb : lit -> lit -> bool) (St : Type) (cube_of_state : St -> list lit) (W : Type)
+         (solve : nat -> query lit -> answer lit St) (gen_on has_bads : bool) (bmc_result : bmc_answer W)
+         (lit_holds : lit -> St -> bool) (bad0 : St -> bool) (step0 trans : St -> St -> bool) (bad : St -> bool)
+         (fuel bf : nat) (st' : pst lit St),
+    oracle_ok lit lit_eqb St cube_of_state solve has_bads lit_holds bad0 step0 trans bad ->
+    pdr lit lit_eqb St cube_of_state W solve gen_on has_bads bmc_result fuel bf = Ok (VUnknown W, st') ->
+    MAX_FRAMES < length (p_frames lit St st') \/
+    (bmc_result = BmcOther W /\ (exists d, d <= MAX_FRAMES /\ unsafe_at St bad0 step0 trans bad d)).
+Proof. exact pdr_model_unknown_only. Qed.
+Print Assumptions C10_pdr_model_unknown_only.
+
+(** The hypotheses are satisfiable: the exhaustive-search oracle over a listed state space is truthful
+    and total. *)
+Theorem C10_pdr_enum_oracle_truthful :
+  forall (lit : Type) (lit_eqb : lit -> lit -> bool) (St : Type) (lit_holds : lit -> St -> bool) (bad0 : St -> bool)
+         (step0 trans : St -> St -> bool) (bad : St -> bool) (states : list St),
+    (forall s, List.In s states) -> (forall l, lit_eqb l l = true) ->
+    forall n q, truthful lit lit_eqb St lit_holds bad0 step0 trans bad q
+                         (enum_solve lit St lit_holds bad0 step0 trans bad states n q).
+Proof. exact enum_solve_truthful. Qed.
+Print Assumptions C10_pdr_enum_oracle_truthful.
+
+(** Non-vacuity: the model runs.  Two-bit states 0..3, literals (bit, polarity); the counter
+    0 -> 1 -> 2 -> 0 (3 steps to 0); with bad = 3 the model answers Success (generalisation on and
+    off), with bad = 2 it answers Fail with the BMC oracle's witness. *)
+Definition pex_lit : Type := (nat * bool)%type.
+Definition pex_lit_eqb (a b : pex_lit) : bool := Nat.eqb (fst a) (fst b) && Bool.eqb (snd a) (snd b).
+Definition pex_holds (l : pex_lit) (s : nat) : bool := Bool.eqb (Nat.testbit s (fst l)) (snd l).
+Definition pex_cube (s : nat) : list pex_lit := (0, Nat.testbit s 0) :: (1, Nat.testbit s 1) :: nil.
+Definition pex_step0 (s s' : nat) : bool := Nat.eqb s 0 && Nat.eqb s' 1.
+Definition pex_run (bad : nat -> bool) (gen : bool) :=
+  pdr pex_lit pex_lit_eqb nat pex_cube unit
+      (enum_solve pex_lit nat pex_holds (fun s => Nat.eqb s 0 && bad s) pex_step0 ex_trans bad ex_states)
+      gen true (BmcFail unit tt) 50 50.
+
+Example C10_pdr_model_example :
+  (match pex_run (fun s => Nat.eqb s 3) true with Ok (VSuccess _, _) => true | _ => false end) = true /\
+  (match pex_run (fun s => Nat.eqb s 3) false with Ok (VSuccess _, _) => true | _ => false end) = true /\
+  (match pex_run (fun s => Nat.eqb s 2) true with Ok (VFail _ _, _) => true | _ => false end) = true /\
+  (match pex_run (fun s => Nat.eqb s 2) false with Ok (VFail _ _, _) => true | _ => false end) = true.
+Proof. vm_compute. repeat split. Qed.
+
+(** ** the concrete model on the transition systems of Spec/System.v (Model/PdrSys.v)
+
+    States = valuations of the state symbols (bounded numbers), literals = (bit, polarity),
+    [st_bad0] / [st_step0] / [st_trans] / [st_bad] = the system's init equations, constraints,
+    next-state functions and bad-state expressions with the inputs existentially quantified (the
+    inputs of the initial step shared between the init equations and the first transition).
+    For EVERY system of the class [fin_class], every oracle whose answers are truthful for these
+    semantics, generalisation on or off, every fuel: if the concrete model of pdr.rs answers Success
+    then no bad state is reachable by any execution of Spec/System.v that satisfies the constraints
+    at every step ([bad_reachable], unbounded depth).
+
+    Fail: a bad state is reachable by an execution of Spec/System.v of at most MAX_FRAMES steps (the
+    state-level counterexample path is mapped back to an execution, choosing the inputs step by step);
+    the witness itself is the one of the BMC fallback (C02/C03), replayed on every run of ./check. *)
+From Patronus Require Import PdrSys PdrSysProofs.
+
+Theorem C10_pdr_model_success_sound_sys :
+  forall (sy : sys), fin_class sy = true ->
+  forall (W : Type) (solve : nat -> query slit -> answer slit (sstate sy)) (gen_on : bool)
+         (bmc_result : bmc_answer W) (fuel bf : nat) (st' : pst slit (sstate sy)),
+    (forall n q, truthful slit slit_eqb (sstate sy) (slit_holds sy) (st_bad0 sy) (st_step0 sy) (st_trans sy) (st_bad sy)
+                          q (solve n q)) ->
+    pdr slit slit_eqb (sstate sy) (scube sy) W solve gen_on (has_bads_of sy) bmc_result fuel bf = Ok (VSuccess W, st') ->
+    ~ bad_reachable sy.
+Proof. exact pdr_model_success_sound_sys. Qed.
+Print Assumptions C10_pdr_model_success_sound_sys.
+
+Theorem C10_pdr_model_fail_real_sys :
+  forall (sy : sys), fin_class sy = true ->
+  forall (W : Type) (solve : nat -> query slit -> answer slit (sstate sy)) (gen_on : bool)
+         (bmc_result : bmc_answer W) (fuel bf : nat) (w : W) (st' : pst slit (sstate sy)),
+    (forall n q, truthful slit slit_eqb (sstate sy) (slit_holds sy) (st_bad0 sy) (st_step0 sy) (st_trans sy) (st_bad sy)
+                          q (solve n q)) ->
+    pdr slit slit_eqb (sstate sy) (scube sy) W solve gen_on (has_bads_of sy) bmc_result fuel bf = Ok (VFail W w, st') ->
+    bmc_result = BmcFail W w /\ (exists d : nat, (d <= MAX_FRAMES)%nat /\ bad_reachable_within sy d).
+Proof. exact pdr_model_fail_real_sys. Qed.
+Print Assumptions C10_pdr_model_fail_real_sys.
+
+Theorem C10_pdr_model_definite_sys :
+  forall (sy : sys) (W : Type) (solve : nat -> query slit -> answer slit (sstate sy)) (gen_on : bool)
+         (bmc_result : bmc_answer W) (fuel bf : nat),
+    (forall n q, truthful slit slit_eqb (sstate sy) (slit_holds sy) (st_bad0 sy) (st_step0 sy) (st_trans sy) (st_bad sy)
+                          q (solve n q)) ->
+    (forall n q, solve n q <> AUnknown slit (sstate sy)) ->
+    match pdr slit slit_eqb (sstate sy) (scube sy) W solve gen_on (has_bads_of sy) bmc_result fuel bf with
+    | Err _ | Panic _ => False
+    | Ok _ | Fuel => True
+    end.
+Proof. exact pdr_model_definite_sys. Qed.
+Print Assumptions C10_pdr_model_definite_sys.
